@@ -260,6 +260,8 @@ def run(ctx):
             pair((resps[i], resps[i + 1])); i += 2
         else:
             c(resps[i]); i += 1
+    from adapters import strlib
+    strlib.validate(ctx, res, routines=('strip', 'split', 'join'))
     res.assumptions = [
         "float(Fraction) and '%.3f' formatting are CPython's; the model prints the exact rational (DESIGN 4.14 limit i)",
         "'the result is again a beat' is a run-time type, observed by the harness on every operator, not a theorem",
